@@ -27,19 +27,41 @@ How the clauses of the property are covered
   closed system (frame theorem, `NrfProofs/NetFrameAllK.lean`);
 * `C14_off`: pure, all 781 nodes, all admissible configurations.
 
-What is *not* claimed (DESIGN §4.2/§7): collisions of simultaneous relays on real air; in the
-*closed* system, that the sender's EN_AA / TX_ADDR stay as programmed until the packet leaves the
-radio while other nodes run in between (isolation of radios: C07's subject) — `C14_air_open`
-proves it end to end for the open system, where nothing runs in between.
+* closed system, composed (`C14_level_closed_partial`): a whole tree network (`NetOk`), one level, relays off, a
+  single-frame user message: `multicast()` returns True, exactly the other nodes of the level hold the
+  packet, nobody acknowledges, and at the next scheduling point each of them queues the frame once —
+  the sender's EN_AA / TX_ADDR are as programmed when the packet leaves the radio (the scheduling point of
+  `send()` lies before the transmission and the network is quiet);
+* `C14_receivers_listening`, `C14_nobody_acks_listening`: the medium clauses on C07's predicate
+  `Nrf.Spec.Listening` (bridge: NrfProofs/C14Bridge.lean); with C07's history theorem discharged:
+  `Nrf.Proofs.C14AfterApi.receivers_after_api` (NrfProofs/C14AfterApi.lean — it cannot be stated in this
+  file: the C07 proof stack and the closed-system stack used here both define `Nrf.Net.nexec`).
+
+What is *not* claimed (DESIGN §4.2/§7): collisions of simultaneous relays on real air; in the closed
+system: the relay step composed (a receiver with `multicast_relay` on re-broadcasting to the next level —
+`C14_handle` + `C14_relay_address` give the step, `C14_level_closed_partial` the delivery of one transmission; the
+composition needs `multicast_sent` from a state in which other receivers still hold the packet, i.e.
+without its "all RX FIFOs empty" hypothesis), fragmented multicasts (> 24 bytes) in the closed system,
+a receiver entering `update()` itself as the *first* scheduling point (covered only through the nested
+runs inside another node's call), mixed `allow_multicast` settings in one network (`NetOk` has one
+configuration for all nodes; per radio this is `C14_receivers` / `C14_off`), and the count of air
+records of the whole call (`l3_send_noack` shows one unacknowledged cycle for the `send`; the driver
+contracts of the surrounding `auto_ack=` / `listen=` / `open_tx_pipe` calls do not mention the air log).
 -/
 import NrfProofs.McastFrameK
 import NrfProofs.McastOpenK
 import NrfProofs.McastReadK
 import NrfProofs.LeaseJudge
 import NrfProps.C04
+import NrfProofs.C14Bridge
+import NrfProofs.C14Closed4
+import NrfProofs.C13HopsExample
 
 namespace Nrf.Props.C14
-open Nrf Nrf.Net Nrf.NetK Nrf.Spec Nrf.Spec.Multicast Nrf.Proofs Nrf.Proofs.McastK
+open Nrf Nrf.NetK Nrf.Spec Nrf.Spec.Multicast Nrf.Proofs Nrf.Proofs.McastK
+-- `Nrf.Net.nexec` (NrfProofs/NetExecJ.lean, the closed-system stack) and `Nrf.NetK.nexec` are the same function;
+-- unqualified `nexec` is K's, the closed-system theorems below write `Nrf.Net.nexec`
+open Nrf.Net hiding nexec
 open Nrf.Props.C04 (CfgOk)
 
 /-! ## the sender -/
@@ -433,5 +455,243 @@ example : CfgOk { allowMulticast := false } ∧ IsNode [3, 2] ∧
     levelAddrSpec 0xCC [0xC3, 0x3C, 0x33, 0xCE, 0x3E, 0xE3] 0 =
       physAddrSpec 0xCC [0xC3, 0x3C, 0x33, 0xCE, 0x3E, 0xE3] [] 0 := by
   decide
+
+/-! ## the medium, on C07's listening predicate
+
+`C14_receivers` / `C14_nobody_acks` are stated on `Spec.Multicast.Listening` (the radio of tree node
+`ds`).  What C07 proves invariant under every API call is `Nrf.Spec.Listening n r` (the radio of the
+node object `n`).  `NrfProofs/C14Bridge.lean` (`listening_bridge`) derives the former from the
+latter for a node on tree node `ds` whose multicast level is its own tree level; the two theorems
+below are the medium clauses on C07's predicate. -/
+
+/-- **C14, who receives, and that nobody acknowledges** (one radio, C07's predicate).  `r` is the
+    radio of the listening node `n` (`Nrf.Spec.Listening n r`, what C07 proves of every node after
+    every API call), `n` sits on tree node `ds` and its multicast level is its tree level (what
+    `_begin` derives; the `multicast_level` setter has not moved it).  Prefix, suffix and
+    `allow_multicast` are the node's own.  Conclusion: that of `C14_receivers`. -/
+theorem C14_receivers_listening {n : Node} (hc : CfgOk n.cfg) {ds : List Nat} (hn : IsNode ds)
+    {r : Radio} (hl : Nrf.Spec.Listening n r) (ha : n.a.addr = val ds)
+    (hlv : n.a.netLvl = ds.length)
+    {L : Nat} (hL : L ≤ 5) {x : Bytes} (hx : levelAddrSpec n.cfg.pfx n.cfg.sfx L = some x)
+    {k : Packet} (hk : McPacket x k) (hcomp : Compatible r k) :
+    (r.listensTo k = if HoldsLevel n.cfg.allowMulticast ds L then some 0 else none) ∧
+    (r.receive k).2 = none ∧
+    (r.receive k).1.rxFifo =
+      (if HoldsLevel n.cfg.allowMulticast ds L ∧ r.rxFifo.length < 3 ∧
+          r.lastRx ≠ some { pid := k.pid, addr := k.addr, data := k.data }
+        then r.rxFifo ++ [{ pipe := 0, data := k.data }] else r.rxFifo) ∧
+    (¬ (HoldsLevel n.cfg.allowMulticast ds L ∧ r.rxFifo.length < 3 ∧
+          r.lastRx ≠ some { pid := k.pid, addr := k.addr, data := k.data }) → (r.receive k).1 = r) :=
+  C14_receivers (pfx := n.cfg.pfx) (sfx := n.cfg.sfx) hc hn
+    (Nrf.Proofs.C14Bridge.listening_bridge hl hn ha hlv) hL hx hk hcomp
+
+/-- node 0o23 (level 2, default prefix / suffix, `allow_multicast`) as `_begin(0o23)` leaves its
+    address attributes; `exRadio` is its radio -/
+def exNode : Node :=
+  { a := { addr := 0o23, netLvl := 2, mask := 0o77, maskInv := 0xFFC0, parent := 0o3, parentPipe := 2 } }
+
+/-- `exRadio` is the radio of the listening node `exNode` in the sense of C07 -/
+theorem C14_exNode_listening : Nrf.Spec.Listening exNode exRadio := by
+  have hd : digitsOf exNode.a.addr = [3, 2] :=
+    Nrf.Proofs.C14Bridge.digitsOf_val_ok (ds := [3, 2]) (by decide)
+  refine ⟨by decide, by decide, by decide, by decide, by decide, ?_, by decide, by decide, by decide⟩
+  intro p hp
+  unfold wantAddr
+  rw [hd]
+  simp only [List.mem_cons, List.not_mem_nil, or_false] at hp
+  rcases hp with rfl | rfl | rfl | rfl | rfl | rfl <;> decide
+
+/-- non-vacuity: every hypothesis holds of the concrete node / radio / level-2 packet, and the node
+    holds level 2 (so the packet is stored) but not level 1 -/
+example : CfgOk exNode.cfg ∧ IsNode [3, 2] ∧ Nrf.Spec.Listening exNode exRadio ∧
+    exNode.a.addr = val [3, 2] ∧ exNode.a.netLvl = [3, 2].length ∧
+    levelAddrSpec exNode.cfg.pfx exNode.cfg.sfx 2 = some [0xCC, 0x33, 0xCC, 0xCC, 0xCC] ∧
+    McPacket [0xCC, 0x33, 0xCC, 0xCC, 0xCC]
+      { ch := 2, rate := 1, crc := 2, esb := true, dpl := true, addr := [0xCC, 0x33, 0xCC, 0xCC, 0xCC],
+        pid := 0, noAck := false, data := [1] } ∧
+    Compatible exRadio
+      { ch := 2, rate := 1, crc := 2, esb := true, dpl := true, addr := [0xCC, 0x33, 0xCC, 0xCC, 0xCC],
+        pid := 0, noAck := false, data := [1] } ∧
+    HoldsLevel exNode.cfg.allowMulticast [3, 2] 2 ∧ ¬ HoldsLevel exNode.cfg.allowMulticast [3, 2] 1 :=
+  ⟨by decide, by decide, C14_exNode_listening, by decide, by decide, by decide, ⟨rfl, rfl, rfl⟩,
+   ⟨by decide, by decide, by decide⟩, by decide, by decide⟩
+
+/-- every radio other than the sender's is not in RX mode (transmitting, powered down) or is the
+    radio of some listening network node — **C07's** `Nrf.Spec.Listening` — with the given prefix /
+    suffix, sitting on a tree node, its multicast level its own tree level, configured like the
+    sender (channel / rate / CRC) -/
+def PopulatedL (pfx : Nat) (sfx : List Nat) (w : World) (s : Nat) (k : Packet) : Prop :=
+  ∀ i, i < w.radios.length → i ≠ s →
+    (w.radio i).rxMode = false ∨
+    ∃ (n : Node) (ds : List Nat), n.cfg.pfx = pfx ∧ n.cfg.sfx = sfx ∧ IsNode ds ∧
+      n.a.addr = val ds ∧ n.a.netLvl = ds.length ∧
+      Nrf.Spec.Listening n (w.radio i) ∧ Compatible (w.radio i) k
+
+/-- C07's population is a population in the sense of `Populated` -/
+theorem C14_populated_of_listening {pfx : Nat} {sfx : List Nat} {w : World} {s : Nat} {k : Packet}
+    (hp : PopulatedL pfx sfx w s k) : Populated pfx sfx w s k := by
+  intro i hi hne
+  rcases hp i hi hne with h | ⟨n, ds, rfl, rfl, hn, ha, hlv, hl, hcomp⟩
+  · exact Or.inl h
+  · exact Or.inr ⟨n.cfg.allowMulticast, ds, hn,
+      Nrf.Proofs.C14Bridge.listening_bridge hl hn ha hlv, hcomp⟩
+
+/-- **C14, nobody acknowledges** (the world, C07's predicate).  A packet on a level address
+    delivered into a world whose other radios are not receiving or are the radios of listening
+    nodes in the sense of C07: no acknowledgement comes back, and every radio ends as its own
+    reception says (`C14_receivers_listening`), the sender's untouched. -/
+theorem C14_nobody_acks_listening {pfx : Nat} {sfx : List Nat} (hc : CfgOk { pfx := pfx, sfx := sfx })
+    {L : Nat} (hL : L ≤ 5) {x : Bytes} (hx : levelAddrSpec pfx sfx L = some x)
+    (w : World) (s : Nat) {k : Packet} (hk : McPacket x k) (hp : PopulatedL pfx sfx w s k) :
+    (w.deliver s k).2 = none ∧
+    ∀ i, i < w.radios.length →
+      (w.deliver s k).1.radio i = if i = s then w.radio i else ((w.radio i).receive k).1 :=
+  C14_nobody_acks hc hL hx w s hk (C14_populated_of_listening hp)
+
+/-- non-vacuity: three radios — the sender's (0), the listening node `exNode`'s (1, in RX mode, so
+    the second alternative is the one that applies), one powered down (2) -/
+example : PopulatedL 0xCC [0xC3, 0x3C, 0x33, 0xCE, 0x3E, 0xE3] ((World.fresh 3).setRadio 1 exRadio) 0
+      { ch := 2, rate := 1, crc := 2, esb := true, dpl := true, addr := [0xCC, 0x33, 0xCC, 0xCC, 0xCC],
+        pid := 0, noAck := false, data := [1] } ∧
+    (((World.fresh 3).setRadio 1 exRadio).radio 1).rxMode = true := by
+  refine ⟨?_, by decide⟩
+  intro i hi _
+  have : i = 0 ∨ i = 1 ∨ i = 2 := by
+    have : ((World.fresh 3).setRadio 1 exRadio).radios.length = 3 := rfl
+    omega
+  rcases this with rfl | rfl | rfl
+  · left; decide
+  · right
+    exact ⟨exNode, [3, 2], rfl, rfl, by decide, by decide, by decide, C14_exNode_listening,
+      ⟨by decide, by decide, by decide⟩⟩
+  · left; decide
+
+/-! ## the closed system: one level, no relays, composed
+
+`C14_address` … `C14_queued_once` prove the clauses separately, the sender in the open system.  Here
+they are composed in the **closed** system (`runOthers`, NrfModel/Net/Node.lean: at every
+`read()` / `send()` of the running node every other idle node with received data runs `update()` to
+completion) on a whole tree network: `NetOk cfg L tree s` (NrfProofs/C05Net.lean) — node object `i`
+is tree node `tree i` on its own radio, every radio in the state `_begin` / every `_write` leaves it
+(listening on its six addresses, pipe 0 on the address of its level, EN_AA = 0x3E), the other radios
+deaf, loss-free air.  The driver contracts are the proved ones (`l3contracts`; for the multicast path
+`l3_send_noack`, `l3_openTx_noack` of NrfProofs/C14Closed1.lean).
+
+What the model does (session `net 4 1 new m network 0 0 ; new a network 1 1 ; new b network 2 2 ;
+new c network 3 9 ; m multicast 010203 5 1 ; m update ; a read ; b read ; c read`): `multicast()`
+returns `T` with the packet in the RX FIFOs of `a` and `b` (the scheduling point of `send()` lies
+*before* the transmission); `a` and `b` run `update()` at the next scheduling point — nested, the
+first receiver's first `read()` lets the second one run — here inside `m update`, which returns 0;
+`a read`, `b read` give the frame, `c read` and `m read` give `N`. -/
+
+/-- **C14, one level, closed system.**  Tree network, multicast allowed, all RX FIFOs empty, the relay
+    off everywhere, at most 400 node objects; node object `s.cur` calls `multicast(msg, ty, level)`
+    with a single-frame message (≤ 24 bytes) of a user type; `Lv` = `targetLevel` (the clamped
+    argument, by default the sender's level); no radio's last accepted packet is this very frame
+    (`hdup`; true e.g. when nothing was received before) and the queues of the nodes of level `Lv`
+    accept it (`hacc`: room, no frame with the same origin, id and type).  Then
+
+    * the call returns `True`; the network is the same tree network with the sender listening again
+      (`NetOk`), all queues as before (no loop-back);
+    * **exactly the other nodes of level `Lv`** hold the packed frame in their RX FIFO (pipe 0, once),
+      every other RX FIFO is empty;
+    * every radio other than the sender's has `receive`d one packet `k` on the address of level `Lv`,
+      and **none acknowledged** (`(receive k).2 = none`);
+    * at the next scheduling point — `update()` entered (as the session driver enters calls) as the
+      sender or as any node that is not a receiver — every receiver runs `update()` inside it: the
+      call returns 0, **exactly the other nodes of level `Lv` have gained exactly one frame** —
+      `mcQueued`: origin = the sender's address, `to_node = 0o100`, the type, the message — **and every
+      other queue is unchanged**; all RX FIFOs are empty, the network is the same tree network.
+
+    `_partial`: the full statement has two more conjuncts that are not proved —
+    (1) the air log: `s1.w.air = s.w.air ++ [{ sender := s.ridAt s.cur, pkt := k, attempts := 1, ok := true }]`
+        and `s2.w.air = s1.w.air` (exactly one record, nothing sent by the receivers).  Proved for the
+        `send` itself (`Nrf.L3.setCE_transmit_noack`: one unacknowledged cycle, one record) and, per
+        record, by `C14_air_open` / `C14_unacknowledged`; missing: that `auto_ack=`, `listen=`,
+        `open_tx_pipe`, `read()` leave `World.air` alone — the snapshot triples of NrfProofs/L3Base.lean
+        (`Snap`) and the contracts `L3Contracts` do not mention the air log.  What *is* proved here:
+        every radio has `receive`d exactly one packet (so no repetition reached anybody), no
+        acknowledgement, `True` at the first attempt;
+    (2) the last clause for `y` a *receiver* entering `update()` itself (`y ≠ s.cur`, level `Lv`): the
+        same induction (`Nrf.Net.mc_update_step`) with the entry `callAs` in place of the scheduler's
+        `switchTo`; not done.  Receivers are covered as they run inside another node's call. -/
+theorem C14_level_closed_partial (cfg : AddrCfg) (hcfg : CfgOk cfg) (ham : cfg.allowMulticast = true)
+    (L : LinkCfg) (tree : Nat → List Nat) (s : NetState) (ty : Int) (msg : Bytes) (level : Option Int)
+    (hok : NetOk cfg L tree s) (hcur : s.cur < s.nodes.length) (hsize : s.nodes.length ≤ 400)
+    (hquiet : ∀ i, i < s.nodes.length → (s.radioAt i).rxFifo = [])
+    (hty : 0 ≤ ty ∧ ty ≤ 127) (hlen : msg.length ≤ MAX_FRAG_SIZE) (hmax : msg.length ≤ s.node.maxMessageLength)
+    (hdup : ∀ j, j < s.nodes.length → ∀ l, (s.radioAt j).lastRx = some l →
+      (mcCaller s.node ty msg).pack ≠ .ok l.data)
+    (hrelay : ∀ j, j < s.nodes.length → (s.nodeAt j).relayEnabled = false)
+    (hacc : ∀ j, j < s.nodes.length → j ≠ s.cur →
+      (tree j).length = targetLevel (tree s.cur).length level →
+      Accepts (s.nodeAt j).queue (mcQueued s.node ty msg)) :
+    ∃ (s1 : NetState) (pk : Bytes) (k : Packet),
+      Nrf.Net.nexec (apiMulticast msg ty level) s = (.ok true, s1) ∧
+      (mcQueued s.node ty msg).pack = .ok pk ∧
+      levelAddrSpec cfg.pfx cfg.sfx (targetLevel (tree s.cur).length level) = some k.addr ∧
+      k.data = pk ∧
+      NetOk cfg L tree s1 ∧
+      (∀ j, (s1.nodeAt j).queue = (s.nodeAt j).queue) ∧
+      (∀ j, j < s.nodes.length → (s1.radioAt j).rxFifo =
+        if j ≠ s.cur ∧ (tree j).length = targetLevel (tree s.cur).length level
+        then [{ pipe := 0, data := pk }] else []) ∧
+      (∀ r, r ≠ s.ridAt s.cur → s1.w.radio r = ((s.w.radio r).receive k).1 ∧ ((s.w.radio r).receive k).2 = none) ∧
+      ∀ y, y < s.nodes.length →
+        (y = s.cur ∨ (tree y).length ≠ targetLevel (tree s.cur).length level) →
+        ∃ s2, Nrf.Net.nexec apiUpdate ((s1.ret).callAs y) = (.ok 0, s2) ∧ NetOk cfg L tree s2 ∧
+          (∀ j, j < s.nodes.length →
+            (s2.nodeAt j).queue.frames = (s.nodeAt j).queue.frames ++
+              (if j ≠ s.cur ∧ (tree j).length = targetLevel (tree s.cur).length level
+               then [mcQueued s.node ty msg] else [])) ∧
+          (∀ j, j < s.nodes.length → (s2.radioAt j).rxFifo = []) :=
+  multicast_level_closed l3contracts cfg hcfg ham L tree s ty msg level hok hcur hsize hquiet hty hlen hmax hdup
+    hrelay hacc
+
+/-- the frame the receivers queue, spelled out -/
+example (n : Node) (ty : Int) (msg : Bytes) :
+    (mcQueued n ty msg).header.fromNode = n.a.addr &&& 0xFFF ∧
+    (mcQueued n ty msg).header.toNode = 0o100 ∧
+    (mcQueued n ty msg).header.msgType = .int (maskInt ty 0xFF &&& 0xFF) ∧
+    (mcQueued n ty msg).header.frameId = n.frameBuf.header.frameId &&& 0xFFFF ∧
+    (mcQueued n ty msg).message = msg :=
+  ⟨rfl, by show (0o100 &&& 0xFFF : Nat) = 0o100; decide, rfl, rfl, rfl⟩
+
+/-- non-vacuity: the chain master — 0o1 — 0o11 — 0o111 of NrfProofs/C13HopsExample.lean (four node
+    objects on four radios as their constructors leave them, `NetOk`), the great-grandchild (level 3)
+    multicasting `[1, 2, 3]`, type 5, to level 1: node object 1 (address 0o1) is the receiver -/
+example : CfgOk {} ∧ NetOk {} Nrf.Net.Example.L Nrf.Net.Example.Hops.tree4 Nrf.Net.Example.Hops.four ∧
+    Nrf.Net.Example.Hops.four.cur < Nrf.Net.Example.Hops.four.nodes.length ∧
+    Nrf.Net.Example.Hops.four.nodes.length ≤ 400 ∧
+    (∀ i, i < Nrf.Net.Example.Hops.four.nodes.length → (Nrf.Net.Example.Hops.four.radioAt i).rxFifo = []) ∧
+    (∀ j, j < Nrf.Net.Example.Hops.four.nodes.length → ∀ l, (Nrf.Net.Example.Hops.four.radioAt j).lastRx = some l →
+      (mcCaller Nrf.Net.Example.Hops.four.node 5 [1, 2, 3]).pack ≠ .ok l.data) ∧
+    (∀ j, j < Nrf.Net.Example.Hops.four.nodes.length → (Nrf.Net.Example.Hops.four.nodeAt j).relayEnabled = false) ∧
+    (∀ j, j < Nrf.Net.Example.Hops.four.nodes.length → j ≠ Nrf.Net.Example.Hops.four.cur →
+      (Nrf.Net.Example.Hops.tree4 j).length =
+        targetLevel (Nrf.Net.Example.Hops.tree4 Nrf.Net.Example.Hops.four.cur).length (some 1) →
+      Accepts (Nrf.Net.Example.Hops.four.nodeAt j).queue (mcQueued Nrf.Net.Example.Hops.four.node 5 [1, 2, 3])) ∧
+    (Nrf.Net.Example.Hops.tree4 1).length =
+      targetLevel (Nrf.Net.Example.Hops.tree4 Nrf.Net.Example.Hops.four.cur).length (some 1) := by
+  refine ⟨by decide, Nrf.Net.Example.Hops.four_ok, by decide, by decide, ?_, ?_, ?_, ?_, by decide⟩
+  · intro i hi
+    rcases Nrf.Net.Example.Hops.four_lt i hi with rfl | rfl | rfl | rfl <;> decide
+  · intro j hj l hl
+    have hnone : ∀ i, i < Nrf.Net.Example.Hops.four.nodes.length → (Nrf.Net.Example.Hops.four.radioAt i).lastRx = none := by
+      intro i hi
+      rcases Nrf.Net.Example.Hops.four_lt i hi with rfl | rfl | rfl | rfl <;> decide
+    rw [hnone j hj] at hl
+    cases hl
+  · intro j hj
+    rcases Nrf.Net.Example.Hops.four_lt j hj with rfl | rfl | rfl | rfl <;> decide
+  · intro j hj _ _
+    have hempty : ∀ i, i < Nrf.Net.Example.Hops.four.nodes.length →
+        (Nrf.Net.Example.Hops.four.nodeAt i).queue.frames = [] ∧ (Nrf.Net.Example.Hops.four.nodeAt i).queue.maxSize = 6 := by
+      intro i hi
+      rcases Nrf.Net.Example.Hops.four_lt i hi with rfl | rfl | rfl | rfl <;> decide
+    obtain ⟨h1, h2⟩ := hempty j hj
+    refine ⟨by rw [h1, h2]; decide, fun g hg => ?_⟩
+    rw [h1] at hg
+    cases hg
 
 end Nrf.Props.C14
